@@ -61,6 +61,7 @@ Proof.
     repeat match goal with |- context [if ?x then _ else _] => destruct x end; simpl; lia.
   - unfold del. destruct (filter _ (maps s)); simpl; lia.
   - unfold reset. destruct (limit <=? 0); simpl; lia.
+  - destruct f; simpl; try lia. destruct (fst (fst (goc c s metric key now))); simpl; lia.
 Qed.
 
 Lemma versions_unique v c ops :
@@ -143,6 +144,7 @@ Proof.
     repeat match goal with |- context [if ?x then _ else _] => destruct x end; simpl; exists x; auto.
   - unfold del. destruct (filter _ (maps s)); simpl; exists x; auto.
   - unfold reset. destruct (limit <=? 0); simpl; exists x; auto.
+  - destruct f; simpl; try (exists x; auto; fail). destruct (fst (fst (goc c s metric key now))); simpl; exists x; auto.
 Qed.
 
 (* ---- namespaces cannot be renamed ---- *)
@@ -195,6 +197,9 @@ Proof.
   - unfold del. destruct (filter _ (maps s)); simpl;
     intros Hy E; assert (y = x) by (apply (wf_row_unique s y x W); auto); subst; reflexivity.
   - unfold reset. destruct (limit <=? 0); simpl;
+    intros Hy E; assert (y = x) by (apply (wf_row_unique s y x W); auto); subst; reflexivity.
+  - destruct f; simpl; try (intros Hy E; assert (y = x) by (apply (wf_row_unique s y x W); auto); subst; reflexivity).
+    destruct (fst (fst (goc c s metric key now))); simpl;
     intros Hy E; assert (y = x) by (apply (wf_row_unique s y x W); auto); subst; reflexivity.
 Qed.
 
@@ -269,4 +274,18 @@ Proof.
   - intros x Hlen Hin Hv. rewrite firstn_all2.
     + eapply Permutation_in; [apply Permutation_sym, P|]. apply filter_In. split; auto. apply Z.gtb_lt. lia.
     + rewrite (Permutation_length P). exact Hlen.
+Qed.
+
+(* a request during which the binlog refuses the append changes no table and logs nothing *)
+Lemma failed_append_changes_nothing v c s f :
+  tables (step_st v c s (OFailAppend f)) = tables s /\ step_evs v c s (OFailAppend f) = [].
+Proof.
+  unfold step_st, step_evs. destruct f; simpl; auto. destruct (fst (fst (goc c s metric key now))); auto.
+Qed.
+(* ... and it reports the failure exactly when the request would otherwise have been committed *)
+Lemma failed_append_save_result v c s p l id oldv data create del typ meta now :
+  step_res v c s (OFailAppend (FSave p l id oldv data create del typ meta now)) = RFail <->
+  fst (fst (fst (save v s (p, l) id oldv data create del typ meta now))) = EOk.
+Proof.
+  unfold step_res. simpl. destruct (fst (fst (fst (save v s (p, l) id oldv data create del typ meta now)))); split; intros H; try discriminate; auto.
 Qed.
